@@ -70,6 +70,8 @@ def grav_cases(ctx, rebound, ncases):
         sim.N_active = nact if nact < n else -1
         sim.testparticle_type = 1 if tp else 0
         sim.gravity_ignore = ign
+        soft = rng.choice([0.0, 0.0, 10 ** rng.uniform(-3, 0)])
+        sim.softening = soft
         if rng.random() < 0.2:
             sim.gravity = "compensated"      # falls through to the BASIC variational code
             grav = "compensated"
@@ -83,8 +85,8 @@ def grav_cases(ctx, rebound, ncases):
                 p.m, p.x, p.y, p.z = dm[i], d[0][i], d[1][i], d[2][i]
             clib.reb_simulation_update_acceleration(ctypes.byref(sim))
             exp = sum(([v.particles[i].ax, v.particles[i].ay, v.particles[i].az] for i in range(n)), [])
-            term = "(runVar1 %s %d %d %s %s %s %s %s %s %s %s %s)" % (
-                vlib.fhex(G), ign, nact, "true" if tp else "false", vlib.flist(ms), vlib.flist(pos[0]),
+            term = "(runVar1 %s %s %d %d %s %s %s %s %s %s %s %s %s)" % (
+                vlib.fhex(G), vlib.fhex(soft), ign, nact, "true" if tp else "false", vlib.flist(ms), vlib.flist(pos[0]),
                 vlib.flist(pos[1]), vlib.flist(pos[2]), vlib.flist(dm), vlib.flist(d[0]), vlib.flist(d[1]), vlib.flist(d[2]))
         elif kind == "v1tp":
             i = rng.randrange(n)
@@ -94,8 +96,8 @@ def grav_cases(ctx, rebound, ncases):
             p.x, p.y, p.z = dv
             clib.reb_simulation_update_acceleration(ctypes.byref(sim))
             exp = [v.particles[0].ax, v.particles[0].ay, v.particles[0].az]
-            term = "(runVar1tp %s %d %s %s %s %s %s %s %s %d)" % (
-                vlib.fhex(G), ign, vlib.flist(ms), vlib.flist(pos[0]), vlib.flist(pos[1]), vlib.flist(pos[2]),
+            term = "(runVar1tp %s %s %d %s %s %s %s %s %s %s %d)" % (
+                vlib.fhex(G), vlib.fhex(soft), ign, vlib.flist(ms), vlib.flist(pos[0]), vlib.flist(pos[1]), vlib.flist(pos[2]),
                 vlib.fhex(dv[0]), vlib.fhex(dv[1]), vlib.fhex(dv[2]), i)
         elif kind == "v2tp":
             i = rng.randrange(n)
@@ -111,8 +113,8 @@ def grav_cases(ctx, rebound, ncases):
                 d3["b"] = d3["a"]
             clib.reb_simulation_update_acceleration(ctypes.byref(sim))
             exp = [vw.particles[0].ax, vw.particles[0].ay, vw.particles[0].az]
-            term = "(runVar2tp %s %s %s %s %s %s %s %d)" % (
-                vlib.fhex(G), vlib.flist(ms), vlib.flist(pos[0]), vlib.flist(pos[1]), vlib.flist(pos[2]),
+            term = "(runVar2tp %s %s %s %s %s %s %s %s %d)" % (
+                vlib.fhex(G), vlib.fhex(soft), vlib.flist(ms), vlib.flist(pos[0]), vlib.flist(pos[1]), vlib.flist(pos[2]),
                 " ".join(vlib.fhex(v) for v in d3["w"]), " ".join(vlib.fhex(v) for v in d3["a"] + d3["b"]), i)
         else:
             va = sim.add_variation()
@@ -135,10 +137,10 @@ def grav_cases(ctx, rebound, ncases):
             clib.reb_simulation_update_acceleration(ctypes.byref(sim))
             exp = sum(([vw.particles[i].ax, vw.particles[i].ay, vw.particles[i].az] for i in range(n)), [])
             fl = lambda s: " ".join([vlib.flist(s[0])] + [vlib.flist(x) for x in s[1]])
-            term = "(runVar2 %s %s %s %s %s %s %s %s)" % (vlib.fhex(G), vlib.flist(ms), vlib.flist(pos[0]), vlib.flist(pos[1]),
+            term = "(runVar2 %s %s %s %s %s %s %s %s %s)" % (vlib.fhex(G), vlib.fhex(soft), vlib.flist(ms), vlib.flist(pos[0]), vlib.flist(pos[1]),
                                                         vlib.flist(pos[2]), fl(sets["w"]), fl(sets["a"]), fl(sets["b"]))
-        cases.append((kind, term, exp, {"kind": kind, "N": n, "N_active": nact, "ign": ign, "tp": tp, "gravity": grav}))
-        ctx.case(key=(kind, n, nact, ign, tp, grav), sample=cases[-1][3] if k < 2 else None)
+        cases.append((kind, term, exp, {"kind": kind, "N": n, "N_active": nact, "ign": ign, "tp": tp, "gravity": grav, "softening": soft}))
+        ctx.case(key=(kind, n, nact, ign, tp, grav, soft != 0.0), sample=cases[-1][3] if k < 2 else None)
     return cases
 
 
@@ -261,16 +263,22 @@ def rescale_cases(ctx, rebound, ncases):
             mag = 10 ** rng.uniform(-3, 3) if mode < 0.4 else (10 ** rng.uniform(100.01, 250) if mode < 0.9 else 10 ** rng.uniform(99, 100))
             ps = var.particles
             flat = []
+            massvar = rng.random() < 0.5
+            coords = []
             for p in ps:
+                mval = (rng.gauss(0, 1) * mag * rng.choice([1.0, 1e3])) if massvar else 0.0      # may exceed every coordinate: not part of `scale`
+                p.m = mval
+                flat.append(mval)
                 for cn in ("x", "y", "z", "vx", "vy", "vz"):
                     u = rng.random()
                     val = rng.gauss(0, 1) * mag if u < 0.9 else (0.0 if u < 0.95 else rng.choice([float("nan"), float("inf"), -mag * 3]))
                     setattr(p, cn, val)
                     flat.append(val)
+                    coords.append(val)
             lres = rng.choice([0.0, 0.0, -1.0, rng.uniform(0, 500), -0.0])
             var.lrescale = lres
             scale = 0.0
-            for val in flat:
+            for val in coords:
                 if abs(val) > scale:
                     scale = abs(val)
             if scale > BIG and scale != float("inf"):
@@ -293,7 +301,7 @@ def rescale_cases(ctx, rebound, ncases):
         for var, npart, alloc in live:
             exp.append(var.lrescale)
             for p in var.particles:
-                exp += [p.x, p.y, p.z, p.vx, p.vy, p.vz]
+                exp += [p.m, p.x, p.y, p.z, p.vx, p.vy, p.vz]
             if alloc:
                 for kk in range(3 * var.index, 3 * (var.index + npart)):
                     exp += [arr[kk] for arr in arrs]
@@ -570,7 +578,7 @@ def run(ctx):
                 "searcher: finite differences per (parameter | pair | integrator | particle class)")
     ctx.assumptions += [
         "theorems are over Coq reals; the binary64 instance of the same Gallina terms is what is compared with the C code",
-        "force theorems: all visited pairs at distinct positions; zero softening (the variational code ignores softening); "
+        "force theorems: softened separation of all visited pairs non-zero (any softening); "
         "any N_active <= N (full strength since /repo 09c4229); second order: all particles active, gravity_ignore_terms 0",
         "constructor theorems: sin/cos values and the Pal (p,q) enter as inputs; their dual parts are the chain-rule pairs "
         "(cos u du, -sin u du) and the code's own dp,dq, which pal_implicit shows to be the unique solution of the linearised Kepler system",
